@@ -349,9 +349,13 @@ impl Plane {
     self.content = pivot_content;
   }
   // FIXME this finalization is needed because the initialization must be fixed and generating plane in canvas must be fixed
-  // TODO check if the plane is rectangular.
   pub fn finalize(&mut self) -> Result<()> {
     self.content.remove(self.content.len() - 1);
+    // the plane must be rectangular: all rows have the same, non-zero number of cells
+    let width = self.width();
+    if width == 0 || self.content.iter().any(|row| row.len() != width) {
+      return Err(plane_is_not_rectangular());
+    }
     Ok(())
   }
   /// Returns rectangle containing input clauses in horizontal table.
